@@ -17,6 +17,8 @@ cache layers (plus the invocation's own writes for `findw`).
   dfindh / dfindw / dget                    -> as findh / findw / get: the harness created the historic context
                                                earlier and evaluates it after later blocks were stored; the model's
                                                answer is the view of height h regardless (historic_view_stable)
+  validated <h> <root> <0|1>                -> <index> <root> w<witnesses> v<validated height>   AddStateRoot of a signed
+                                               root (1 = its witness verifies) on the module model
   sroot <h>                                 -> <index> <root hex> | none     GetStateRoot(h) of the model of
                                                stateroot.Module's records (Model/StateCommit/Roots.lean), which
                                                receives every batch as AddMPTBatch+UpdateCurrentLocal
@@ -154,6 +156,18 @@ def step (s : St) (ws0 : List String) : St × String :=
       | some r => (s, s!"{r.index} {Hex.encode r.root}")
       | none => (s, "none")
     | none => (s, "bad-op")
+  | ["validated", h, root, v] =>
+    match h.toNat?, Hex.decode root with
+    | some hn, some rt =>
+      -- the witness array of the signed root: one witness (only the count is compared)
+      let mod := (StateCommit.Roots.step (trieOps s.tries) s.mod (.validated { index := hn, root := rt, wit := [1] } (v == "1"))).getD s.mod
+      let vh := match StateCommit.Roots.kvGet mod.m.store StateCommit.Roots.validatedKey with
+        | some b => Wire.leVal b
+        | none => 0
+      match StateCommit.Roots.getStateRoot mod.m hn with
+      | some r => ({ s with mod := mod }, s!"{r.index} {Hex.encode r.root} w{if r.wit == [0] then 0 else 1} v{vh}")
+      | none => ({ s with mod := mod }, "none")
+    | _, _ => (s, "bad-op")
   | ["local"] => (s, s!"{s.mod.m.localHeight} {Hex.encode s.mod.m.currentLocal}")
   | ["reset", h] =>
     match h.toNat? with
